@@ -229,6 +229,28 @@ func genC13(r *Rng, tier string) []Case {
 			}
 		}
 	}
+	// deep nesting (RFC 8949 core deterministic form has no depth limit): d containers around one leaf,
+	// as arrays, as maps nested through the value, through the key, and alternating; each also with
+	// a non-minimal leaf and with the leaf missing
+	for _, d := range []int{7, 8, 9, 15, 16, 17, 31, 32, 33, 34, 63, 64, 65, 100, 127, 128, 129, 255, 256, 257, 1000, 4096} {
+		for _, leaf := range [][]byte{{0x07}, {0x18, 0x07}, {}} {
+			arr := append(bytes.Repeat([]byte{0x81}, d), leaf...)
+			one(arr)
+			mv := append(bytes.Repeat([]byte{0xa1, 0x00}, d), leaf...)
+			one(mv)
+			mk := append(append(bytes.Repeat([]byte{0xa1}, d), leaf...), bytes.Repeat([]byte{0x00}, d)...)
+			one(mk)
+			alt := []byte{}
+			for i := 0; i < d; i++ {
+				if i%2 == 0 {
+					alt = append(alt, 0x82, 0x01)
+				} else {
+					alt = append(alt, 0xa1, 0x41, 0x78)
+				}
+			}
+			one(append(alt, leaf...))
+		}
+	}
 	// maps with swapped / duplicated key pairs, built explicitly
 	for i := 0; i < 400; i++ {
 		nk := 2 + r.Intn(4)
